@@ -1,17 +1,20 @@
 """Environment stubs shared by the harnesses (each one is part of the claim; see DESIGN 2.6)."""
 import numpy as np
 
-from pyxsym.sym import ctx, Sym
+from pyxsym.sym import ctx, Sym, PathCut
 from pyxsym.values import Function
 from pyxsym.front import FuncInfo
 
 
-def install_uniform(interp):
-    """cyrandom.uniform_rv() -> fresh real u with 0 < u < 1, recorded in draw order."""
+def install_uniform(interp, max_draws=None):
+    """cyrandom.uniform_rv() -> fresh real u with 0 < u < 1, recorded in draw order.
+    max_draws: the path is cut (PathCut) when one more uniform is requested."""
     R = interp.load("bioscrape.random")
 
     def uniform_rv():
         c = ctx()
+        if max_draws is not None and len(c.draws) >= max_draws:
+            raise PathCut("more than %d uniforms" % max_draws)
         u = c.fresh_real("u", lo=0, hi=1, lo_strict=True, hi_strict=True)
         c.draws.append(u)
         return u
